@@ -6,6 +6,12 @@ ALL = ["C%02d" % i for i in range(1, 21)]
 
 WRAP_NOTE = "Shaped runs are synthetic (generator asserts the shaper output contract); break opportunities come from the segmenter (C06). Negative letter spacing is checked for conservation only (measure not monotone)."
 CHECKS = {
+ "C07": dict(
+   level="exploration",
+   text="Every text up to the tier's length over a 24-rune alphabet (4 scripts, both digit kinds, neutrals, 3 bracket pairs, mark, CJK, ZWJ, LF/PS, RLE/RLI/PDI, emoji) x every sub-range x 6 directions (incl. vertical with/without fixed orientation), languages and 4 Fontmap implementations crossed one at a time, plus a longer bracket-alphabet pass; one long-lived Segmenter per shard and explicit reuse pairs against a fresh Segmenter; laws: exact partition, field identity, bidi parity against reference levels per paragraph, script uniformity and bracket/neutral context, orientation, face through the Fontmap (script hint told first), language/script compatibility.",
+   note="Reference embedding levels: x/text bidi core via go:linkname, with the paragraph-level convention of the library's own call. Class B runes may have either parity. Neutral-only runs: script must come from a neighbouring run or a still unmatched opening bracket.",
+   technique="bounded exhaustive enumeration of inputs and configurations against laws and reference UBA levels (E1) + depth-2 reuse histories",
+   design="1/C07", engine="E1 enum"),
  "C11": dict(
    level="exploration",
    text="Every corpus face over all 0x110000 code points (Lookup vs Iter vs RuneRanges vs the coverage recorded by both footprint paths vs scripts of the mapped runes); synthetic subtables of formats 0/4/6/10/12/13 and the symbol / legacy-Arabic remapping enumerated over boundary segments and compared with a naive interpretation of the subtable; scriptsFromRanges on all short sorted range lists; RuneSet by explicit-state search over Add/Delete histories against map[rune]bool.",
